@@ -623,6 +623,8 @@ def handleCbConc (kv : List (String × String)) (impl : String) : String × Stri
 def handle : Handler := fun input impl =>
   let kv := parseKV input
   -- a call that never returned (the harness gave up waiting: a lock that is not released, a lost wake-up)
+  -- a controlled run whose goroutines did not come to rest in time (a loaded machine): nothing can be concluded
+  if impl == "TIMEOUT" then ("-", "skip:inconclusive:the controlled run did not settle in time") else
   if impl == "HANG" || impl.endsWith ":HANG" then ("-", "fail:hang:a Next/Left/Start call did not return (deadlock)") else
   match getS kv "mode" "seq" with
   | "seq" => if getS kv "huge" == "1" then handleHuge kv impl else handleSeq kv impl
